@@ -118,7 +118,7 @@ LawVisited(p, T) == LET r == ExecT(p, T) IN r.err = "none" /\ DOMAIN r.lps = DOM
 LawScore(p, T)   == Close(Score(ExecT(p, T)), T.score)
 \* (masked_iterate documents nothing about the values it returns at False steps: only its score is specified)
 \* (nor does the spec know the shape of an empty stack: zero-length maps are checked for choices/score/weights only)
-LawRet(p, T)     == p.k = "maskediterate" \/ (p.k \in {"vmap", "repeat"} /\ p.n = 0) \/ ExecT(p, T).ret = T.ret
+LawRet(p, T)     == p.k = "maskediterate" \/ (p.k \in {"vmap", "repeat"} /\ p.n = 0) \/ NormV(ExecT(p, T).ret) = NormV(T.ret)
 
 \* C03: importance
 LawGenAgree(T, cons)     == \A a \in DOMAIN cons \cap DOMAIN T.choices : T.choices[a] = cons[a]
